@@ -368,31 +368,31 @@ Proof.
   destruct (loop_ctl c); [apply IHr; auto|simpl; auto].
 Qed.
 
-Lemma run_clause_rel b fr sf g : E vs fr sf -> cov_stmt clos vs b = true ->
-  erel vs (irun_clause cm funs clos n fn b fr g) (srun_clause cm funs clos n vs fn b sf g).
+Lemma runc_rel : forall l fr sf g, E vs fr sf -> cov_clauses clos vs l = true ->
+  erel vs (irunc cm funs clos n fn l fr g) (srunc cm funs clos n vs fn l sf g).
 Proof.
-  intros HE C. unfold irun_clause, srun_clause. pose proof (IH vs fn b fr sf g HE C) as R. rel_step R c f1 s1 g1. simpl. auto.
+  induction l as [|e b r IHr|b r IHr]; intros fr sf g HE C; cbn [irunc srunc]; [simpl; auto| |];
+    cbn [cov_clauses] in C; andb_split.
+  - pose proof (IH vs fn b fr sf g HE H1) as R. rel_step R c f1 s1 g1.
+    destruct c; first [apply IHr; solve [auto] | simpl; auto].
+  - pose proof (IH vs fn b fr sf g HE H) as R. rel_step R c f1 s1 g1.
+    destruct c; first [apply IHr; solve [auto] | simpl; auto].
 Qed.
 
-Lemma default_cov : forall cl acc b, cov_clauses clos vs cl = true ->
-  (forall a, acc = Some a -> cov_stmt clos vs a = true) ->
-  default_of cl acc = Some b -> cov_stmt clos vs b = true.
+Lemma default_entry_cov : forall cl, cov_clauses clos vs cl = true -> cov_clauses clos vs (default_entry cl) = true.
 Proof.
-  induction cl as [|e b0 r IHr|b0 r IHr]; intros acc b C A D; cbn [default_of] in D.
-  - apply A. exact D.
-  - cbn [cov_clauses] in C. andb_split. eapply IHr; eauto.
-  - cbn [cov_clauses] in C. andb_split. eapply IHr; [eassumption| |exact D]. intros a [= <-]. assumption.
+  induction cl as [|e b r IHr|b r IHr]; intros C; cbn [default_entry]; auto.
+  cbn [cov_clauses] in C. andb_split. auto.
 Qed.
 
 Lemma cases_rel cl cv : cov_clauses clos vs cl = true -> forall l fr sf g, E vs fr sf -> cov_clauses clos vs l = true ->
   erel vs (icases cm funs clos n fn cl cv l fr g) (scases cm funs clos n vs fn cl cv l sf g).
 Proof.
   intros Ccl. induction l as [|e b r IHr|b r IHr]; intros fr sf g HE C; cbn [icases scases].
-  - destruct (default_of cl None) as [b|] eqn:D; [|simpl; auto].
-    apply run_clause_rel; auto. eapply default_cov; [exact Ccl| |exact D]. intros a [=].
-  - cbn [cov_clauses] in C. andb_split.
+  - apply runc_rel; auto. apply default_entry_cov; auto.
+  - pose proof C as C0. cbn [cov_clauses] in C. andb_split.
     pose proof (ev_rel e fr sf g HE H) as R. rel_step R v f1 s1 g1. destruct v as [v|]; [|simpl; auto].
-    destruct (switch_match cv v); [apply run_clause_rel|apply IHr]; auto.
+    destruct (switch_match cv v); [apply runc_rel|apply IHr]; auto.
   - cbn [cov_clauses] in C. andb_split. apply IHr; auto.
 Qed.
 
@@ -449,10 +449,8 @@ Proof.
   - (* SReturn *) destruct e as [e|].
     + rewrite iexec_return, sexec_return. pose proof (ev_rel e fr sf g HE C) as R. rel_step R v f1 sf1 g1. destruct v; simpl; auto.
     + simpl. auto.
-  - (* SStatic *) rewrite iexec_static, sexec_static. destruct (String.eqb fn "").
-    + destruct (wr fn x init fr g) as [fr' g1] eqn:W; destruct (swr vs fn x init sf g) as [sf' g2] eqn:SW.
-      destruct (E_wr _ _ _ _ _ _ _ _ _ _ _ HE C W SW) as [<- HE']. simpl. auto.
-    + simpl. split; [reflexivity|]. split; [reflexivity|]. apply E_static. exact HE.
+  - (* SStatic *) rewrite iexec_static, sexec_static.
+    simpl. split; [reflexivity|]. split; [reflexivity|]. apply E_static. exact HE.
   - (* STry *) rewrite iexec_try, sexec_try.
     assert (HE0 : E vs fr sf) by exact HE.
     pose proof (IH vs fn s1 fr sf (mark CTry g) HE H) as R. rel_step R cb f1 sf1 g1.
